@@ -79,6 +79,15 @@ func (g *genSet) write(repo, verifDir string) {
 	writeFile(filepath.Join(g.dir, "go.sum"), string(sum))
 	writeFile(filepath.Join(g.dir, "ext", "ext.go"), pg.ExtFile())
 	writeFile(filepath.Join(g.dir, "ext", "debug", "debug.go"), "// Package debug is a user package whose name collides with runtime/debug.\npackage debug\n\nconst Marker = 2\n")
+	// types that reach a directive only through another package's function signatures; the defining package's
+	// name differs from the last element of its import path, or collides with a name the file uses
+	writeFile(filepath.Join(g.dir, "ext", "store", "v2", "store.go"), "// Package store has an import path ending in v2.\npackage store\n\ntype Record struct{ N int }\n")
+	writeFile(filepath.Join(g.dir, "ext", "go-model", "model.go"), "// Package model lives in a directory whose name is not an identifier.\npackage model\n\ntype Item struct{ N int }\n")
+	writeFile(filepath.Join(g.dir, "ext", "inner", "context", "context.go"), "// Package context is a user package named like a standard one.\npackage context\n\ntype Token struct{ N int }\n")
+	writeFile(filepath.Join(g.dir, "ext", "backend", "backend.go"), fmt.Sprintf("// Package backend exposes functions over types of packages its callers do not import.\npackage backend\n\nimport (\n\tictx \"%[1]s/ext/inner/context\"\n\tmodel \"%[1]s/ext/go-model\"\n\tstore \"%[1]s/ext/store/v2\"\n)\n\n"+
+		"func Fetch() (*store.Record, error) { return &store.Record{N: 7}, nil }\nfunc Describe(r *store.Record) int { return r.N + 1 }\n"+
+		"func Item() model.Item { return model.Item{N: 3} }\nfunc Weigh(i model.Item) int64 { return int64(i.N) * 2 }\n"+
+		"func Token() ictx.Token { return ictx.Token{N: 5} }\nfunc Spend(t ictx.Token) uint8 { return uint8(t.N) }\n", modPath))
 	writeFile(filepath.Join(g.dir, "othertime", "othertime.go"), "// Package othertime is a user package that files import under the name time.\npackage othertime\n\nconst Marker = 1\n")
 	var pkgs []string
 	per := g.per
